@@ -142,7 +142,26 @@ func checkIndirect(p *Program, r *Report) {
 	}
 	// shape: a loop whose condition is v.Kind()==Ptr && !v.IsNil(), body v = v.Elem(); result v.Interface()
 	hasLoop, elem, iface, kindPtr, notNil := false, false, false, false, false
-	for _, b := range fn.Blocks {
+	// the function itself and the helpers of its package it delegates to
+	fns := []*ssa.Function{fn}
+	seenF := map[*ssa.Function]bool{fn: true}
+	for i := 0; i < len(fns) && i < 4; i++ {
+		for _, b := range fns[i].Blocks {
+			for _, in := range b.Instrs {
+				if c, ok := in.(*ssa.Call); ok {
+					if g := staticCallee(c.Common()); g != nil && g.Pkg == fn.Pkg && g.Blocks != nil && !seenF[g] {
+						seenF[g] = true
+						fns = append(fns, g)
+					}
+				}
+			}
+		}
+	}
+	var blocks []*ssa.BasicBlock
+	for _, f := range fns {
+		blocks = append(blocks, f.Blocks...)
+	}
+	for _, b := range blocks {
 		for _, su := range b.Succs {
 			if su.Dominates(b) {
 				hasLoop = true
